@@ -1409,6 +1409,28 @@ fn gen_case(rng: &mut Rng, n: usize, tier: &str, scratch: &std::path::Path, out:
                     ops.push(key_op(*rng.pick(&[Esc, Enter, Tab]), none));
                     ops.push(key_op(Enter, none));
                 }
+                _ if !selecting && rng.chance(1, 6) => {
+                    // the buffer at its limit after a key that pushed text out (the commit string is not empty); then - no
+                    // key and no ack in between - the limit is lowered and a choice made through the API pushes out more:
+                    // what that commits is a leading part of the conversion, nothing of the earlier commit string
+                    // (seeded change C02-D)
+                    let mut o = opts_vec(&ed.editor_options());
+                    let lim = 2 + rng.below(3) as u32;
+                    o[6] = lim;
+                    o[8] = 0;
+                    ops.push(Op::Opts(o));
+                    for _ in 0..(lim + 1 + rng.below(2) as u32) {
+                        let i = rng.below(world.syls.len() as u64) as usize;
+                        for k in &world.keys[i] {
+                            ops.push(key_op(*k, none));
+                        }
+                    }
+                    o[6] = lim - 1 - rng.below(2).min(lim as u64 - 1) as u32;
+                    ops.push(Op::Opts(o));
+                    ops.push(Op::Start);
+                    ops.push(Op::Select(rng.below(2) as usize));
+                    ops.push(Op::Get(1));
+                }
                 _ if !selecting && rng.chance(1, 5) => {
                     // a phrase list whose range is moved with j / k and that is left by a choice, Backspace or Up;
                     // afterwards symbols are inserted through the symbol table in the middle of the buffer (every
